@@ -60,7 +60,7 @@ Qed.
 (* C03 at full strength: any spelling of an Add-built tree *)
 Theorem root_equals_markdown sp t : spells sp [t] -> nodup_sib t ->
   (forall c, c_dry c = false -> output_md c (bytes_of sp) = output_root c t) /\
-  (forall c cb, c_dry c = false -> is_default (c_enc c) = true -> walk_md c cb (bytes_of sp) = walk_root (c_bf c) cb t) /\
+  (forall c cb, c_dry c = false -> walk_md c cb (bytes_of sp) = walk_root (c_bf c) cb t) /\
   (forall w h c d, root_of w (Some h) = Ok t -> pstep w (PMdMkdir c d (bytes_of sp)) = pstep w (PMkdir (Some h) c d)) /\
   (forall w h c s d, root_of w (Some h) = Ok t -> pstep w (PMdVerify c s d (bytes_of sp)) = pstep w (PVerify (Some h) c s d)).
 Proof.
